@@ -537,3 +537,104 @@ def driver_run(ctx, lines, tries=60, pause=2.0):
             err = e
             _real_time.sleep(pause)
     raise lib.Infra('model driver not runnable: %s' % err)
+
+
+# ------------------------------------------------------------------------------------------------ real fork helper
+# Runs in a SUBPROCESS (the harness process itself never raw-forks).  argv: repo path, JSON parameters
+# {"order": ["os" | "raw", ...], "a0", "v0", "incs": [...], "sets": [...], "a_end", "v_end"} (floats as u64 bit patterns).
+# Uses the library's DEFAULT value class (MultiProcessValue() on os.getpid, chosen because PROMETHEUS_MULTIPROC_DIR is
+# set), forks once per entry of "order" — os.fork() or the raw libc fork() through ctypes, which does not run CPython's
+# at-fork hooks — and prints one JSON document: a snapshot (sha256 + size of the raw bytes, parsed entries through the
+# library's reader) before the forks, after each child and at the end, the pids, and the collector's output.
+RAWFORK_HELPER = r'''
+import sys, os, json, glob, struct, hashlib, signal
+repo, params = sys.argv[1], json.loads(sys.argv[2])
+sys.path.insert(0, repo)
+signal.alarm(8)
+def fb(n): return struct.unpack('<d', struct.pack('<Q', n))[0]
+def bits(x):
+    x = float(x)
+    return 0x7ff8000000000000 if x != x else struct.unpack('<Q', struct.pack('<d', x))[0]
+from prometheus_client import Counter, Gauge, values
+from prometheus_client.mmap_dict import MmapedDict
+from prometheus_client.multiprocess import MultiProcessCollector
+from prometheus_client.registry import CollectorRegistry
+d = os.environ['PROMETHEUS_MULTIPROC_DIR']
+def snap():
+    out = {}
+    for p in sorted(glob.glob(os.path.join(d, '*.db'))):
+        raw = open(p, 'rb').read()
+        out[os.path.basename(p)] = {'sha': hashlib.sha256(raw).hexdigest(), 'size': len(raw),
+                                    'entries': [[k, bits(v), bits(t)] for k, v, t, _ in MmapedDict.read_all_values_from_file(p)]}
+    return out
+doc = {'parent': os.getpid(), 'multiprocess': bool(getattr(values.ValueClass, '_multiprocess', False)), 'children': []}
+c = Counter('c', 'h', registry=None)
+g = Gauge('g', 'h', registry=None, multiprocess_mode='all')
+c.inc(fb(params['a0'])); g.set(fb(params['v0']))
+doc['before'] = snap()
+for j, kind in enumerate(params['order']):
+    if kind == 'raw':
+        import ctypes
+        libc = ctypes.CDLL(None)
+        if not hasattr(libc, 'fork'):
+            doc['children'].append({'kind': kind, 'unavailable': True})
+            continue
+    r, w = os.pipe()
+    sys.stdout.flush(); sys.stderr.flush()
+    pid = os.fork() if kind == 'os' else libc.fork()
+    if pid == 0:
+        code = 3
+        try:
+            signal.alarm(5)
+            os.write(w, str(os.getpid()).encode())
+            c.inc(fb(params['incs'][j])); g.set(fb(params['sets'][j]))
+            code = 0
+        finally:
+            os._exit(code)
+    os.close(w)
+    reported = os.read(r, 64).decode()
+    os.close(r)
+    _, status = os.waitpid(pid, 0)
+    doc['children'].append({'kind': kind, 'fork_returned': pid, 'reported': int(reported) if reported else None,
+                            'status': os.waitstatus_to_exitcode(status), 'after': snap()})
+c.inc(fb(params['a_end'])); g.set(fb(params['v_end']))
+doc['end'] = snap()
+doc['collected'] = [[m.name, [[s.name, sorted(s.labels.items()), bits(s.value)] for s in m.samples]]
+                    for m in MultiProcessCollector(CollectorRegistry(), d).collect()]
+print(json.dumps(doc))
+'''
+
+
+def run_rawfork_helper(params, timeout=10.0):
+    """-> (status, doc | None, stderr tail); status: 'ok' | 'exit <rc>' | 'timeout' | 'bad-output'.
+    Raises lib.Infra only when python itself cannot be started."""
+    import signal
+    import subprocess
+    import sys
+    d = tempfile.mkdtemp(prefix='pv-rawfork-')
+    env = dict(os.environ, PROMETHEUS_MULTIPROC_DIR=d)
+    env.pop('prometheus_multiproc_dir', None)
+    try:
+        try:
+            p = subprocess.Popen([sys.executable, '-c', RAWFORK_HELPER, lib.REPO, json.dumps(params)], env=env,
+                                 stdout=subprocess.PIPE, stderr=subprocess.PIPE, start_new_session=True)
+        except OSError as e:
+            raise lib.Infra('cannot start the fork helper: %s' % e)
+        try:
+            out, err = p.communicate(timeout=timeout)
+        except subprocess.TimeoutExpired:
+            try:
+                os.killpg(p.pid, signal.SIGKILL)
+            except OSError:
+                pass
+            out, err = p.communicate()
+            return 'timeout', None, err.decode('utf-8', 'replace')[-600:]
+        err = err.decode('utf-8', 'replace')[-600:]
+        if p.returncode != 0:
+            return 'exit %d' % p.returncode, None, err
+        try:
+            return 'ok', json.loads(out.decode('utf-8')), err
+        except ValueError:
+            return 'bad-output', None, (out.decode('utf-8', 'replace')[-300:] + ' | ' + err)
+    finally:
+        shutil.rmtree(d, ignore_errors=True)
